@@ -196,12 +196,20 @@ type rleFrameCase struct {
 	Rows, Cols, BA, SPP, Planar int
 	Hex                         string `json:"hex,omitempty"`
 	Frame                       []byte `json:"-"`
+	Wide                        bool   // frame content is the fixed function of the geometry used by the wide multi-row sub-space
 	Multi                       bool   // also encode [frame, reversed frame, frame] as one 3-frame PixelData and decode every frame
 }
 
 func (a *rleFrameCase) frame() []byte {
 	if a.Frame != nil {
 		return a.Frame
+	}
+	if a.Wide {
+		fr := make([]byte, a.Rows*a.Cols*a.BA/8*a.SPP)
+		for i := range fr {
+			fr[i] = byte((i/7)*31 + i%3)
+		}
+		return fr
 	}
 	b := make([]byte, len(a.Hex)/2)
 	fmt.Sscanf(a.Hex, "%x", &b)
@@ -470,6 +478,25 @@ func c01Frames(c *eng.Ctx) {
 	}
 	c.Subspace("rle-frames-macro", c.Evals()-before, done, fmt.Sprintf("every sequence of <= %d macro-ops {run(L), literal(L)} with L in %v, mapped into plane layouts (BA x SPP x planar); each also as frames 0 and 2 of a 3-frame PixelData", kmax, lens))
 
+	// wide multi-row frames: Columns x bytes-per-pixel-step at and beyond 2^16 with more than one row
+	before = c.Evals()
+	for _, g := range []struct{ rows, cols, ba, spp, planar int }{{2, 40000, 16, 1, 0}, {3, 30000, 8, 3, 0}, {2, 33000, 32, 1, 0}, {2, 65535, 8, 1, 0}, {2, 22000, 16, 3, 0}, {2, 40000, 16, 3, 1}} {
+		n := g.rows * g.cols * g.ba / 8 * g.spp
+		fr := make([]byte, n)
+		for i := range fr {
+			fr[i] = byte((i/7)*31 + i%3)
+		}
+		a := rleFrameCase{Rows: g.rows, Cols: g.cols, BA: g.ba, SPP: g.spp, Planar: g.planar, Frame: fr}
+		c.Eval(1)
+		if f := eng.Guard(func() *eng.Fail { return rleFrameRun(a, c, nil) }); f != nil {
+			// the frame is a function of the geometry: the replay rebuilds it
+			a.Frame = nil
+			a.Hex = ""
+			a.Wide = true
+			eng.Recheck(c, "C01.frame", a, rleFrameFn)
+		}
+	}
+	c.Subspace("rle-frames-wide-multirow", c.Evals()-before, true, "6 geometries with Columns x byte step at or beyond 2^16 and 2..3 rows (16/32-bit, colour-by-pixel and colour-by-plane)")
 	if c.Thorough() {
 		before = c.Evals()
 		for _, dims := range [][2]int{{65535, 1}, {1, 65535}} {
